@@ -174,7 +174,7 @@ impl Property for C04 {
     }
     fn cases(&self, tier: Tier) -> u64 {
         match tier {
-            Tier::Quick => 40_000,
+            Tier::Quick => 200_000,
             Tier::Thorough => 3_000_000,
         }
     }
